@@ -2515,6 +2515,8 @@ where
             Err(e) => return Err(e.into()),
         };
         stats.flips_performed += 1;
+        #[cfg(delaunay_verif)]
+        verif_flip_trace::record(tds, &info);
         diagnostics.record_flip_signature(signature);
 
         if stats.flips_performed > max_flips {
@@ -3594,6 +3596,61 @@ fn ridge_debug_limit() -> usize {
         .unwrap_or(RIDGE_DEBUG_LIMIT_DEFAULT)
 }
 
+// =============================================================================
+// VERIFICATION HOOK (compiled only with `--cfg delaunay_verif`): flip trace
+// =============================================================================
+
+/// Records, per thread, every flip the repair loops apply (removed face / inserted face as vertex
+/// UUIDs), so that the conformance harness can check each repair step against the TLA+ model of
+/// the flip-repair mechanism. Recording is off unless the harness starts it.
+#[cfg(delaunay_verif)]
+pub mod verif_flip_trace {
+    use super::{DataType, FlipInfo, Tds};
+    use crate::geometry::traits::coordinate::CoordinateScalar;
+    use std::cell::RefCell;
+    use uuid::Uuid;
+
+    /// One applied flip: (k, removed-face vertex UUIDs, inserted-face vertex UUIDs).
+    pub type Step = (usize, Vec<Uuid>, Vec<Uuid>);
+
+    thread_local! {
+        static TRACE: RefCell<Option<Vec<Step>>> = const { RefCell::new(None) };
+    }
+
+    /// Start (or restart) recording on this thread.
+    pub fn start() {
+        TRACE.with(|t| *t.borrow_mut() = Some(Vec::new()));
+    }
+
+    /// Stop recording and return what was recorded.
+    #[must_use]
+    pub fn take() -> Vec<Step> {
+        TRACE.with(|t| t.borrow_mut().take().unwrap_or_default())
+    }
+
+    pub(crate) fn record<T, U, V, const D: usize>(tds: &Tds<T, U, V, D>, info: &FlipInfo<D>)
+    where
+        T: CoordinateScalar,
+        U: DataType,
+        V: DataType,
+    {
+        TRACE.with(|t| {
+            if let Some(steps) = t.borrow_mut().as_mut() {
+                let uuids = |keys: &[crate::core::triangulation_data_structure::VertexKey]| {
+                    keys.iter()
+                        .filter_map(|k| tds.get_vertex_by_key(*k).map(crate::core::vertex::Vertex::uuid))
+                        .collect::<Vec<_>>()
+                };
+                steps.push((
+                    info.removed_cells.len(),
+                    uuids(&info.removed_face_vertices),
+                    uuids(&info.inserted_face_vertices),
+                ));
+            }
+        });
+    }
+}
+
 fn should_emit_ridge_debug() -> bool {
     let limit = ridge_debug_limit();
     if limit == 0 {
@@ -4013,6 +4070,8 @@ where
         );
     }
     stats.flips_performed += 1;
+    #[cfg(delaunay_verif)]
+    verif_flip_trace::record(tds, &info);
     diagnostics.record_flip_signature(signature);
     *last_applied_flip = Some(LastAppliedFlip::new(
         3,
@@ -4183,6 +4242,8 @@ where
         );
     }
     stats.flips_performed += 1;
+    #[cfg(delaunay_verif)]
+    verif_flip_trace::record(tds, &info);
     diagnostics.record_flip_signature(signature);
     *last_applied_flip = Some(LastAppliedFlip::new(
         D,
@@ -4348,6 +4409,8 @@ where
         );
     }
     stats.flips_performed += 1;
+    #[cfg(delaunay_verif)]
+    verif_flip_trace::record(tds, &info);
     diagnostics.record_flip_signature(signature);
     *last_applied_flip = Some(LastAppliedFlip::new(
         D - 1,
@@ -4516,6 +4579,8 @@ where
         );
     }
     stats.flips_performed += 1;
+    #[cfg(delaunay_verif)]
+    verif_flip_trace::record(tds, &info);
     diagnostics.record_flip_signature(signature);
     *last_applied_flip = Some(LastAppliedFlip::new(
         2,
